@@ -5,10 +5,15 @@ import (
 	"fmt"
 	"os"
 	"os/exec"
+	"runtime"
 	"strconv"
 	"strings"
+	"sync"
+	"sync/atomic"
 	"syscall"
 	"time"
+
+	"verif/sim/wrap"
 )
 
 // Process death.
@@ -31,6 +36,77 @@ import (
 //    with a Go fatal error while executing op #i" is the violation.
 
 const ruleDeath = "C20/process-death"
+const ruleBlocked = "C04/blocked-forever"
+
+// ---- hang monitor ---------------------------------------------------------------------
+//
+// "Later operations on the same handle proceed normally" also fails when one
+// never returns: a lock leaked on an error path blocks the next writer inside
+// clover, where no store call is pending and the scheduler has nothing to
+// decide. A monitor goroutine watches the two things that move while a public
+// call is in progress - store calls and call boundaries; when neither has moved
+// for hangLimit the process reports HANG and exits, and the driver treats it like
+// a process death: the run is re-executed in a child, twice, and a call that
+// blocks again at the same place is the violation C04/blocked-forever.
+// The limit is wall-clock time, the one place where the harness reads a real
+// clock to decide something; it is three orders of magnitude above what a call
+// takes, it never turns into a violation unless the re-executions agree, and a
+// process that is merely starved ends as harness trouble (exit 2).
+const hangLimit = 45 * time.Second
+
+var (
+	callsInProgress int32
+	callBoundaries  int64
+	hangMonitor     sync.Once
+)
+
+func callBegin() {
+	hangMonitor.Do(func() { go watchForHang() })
+	atomic.AddInt64(&callBoundaries, 1)
+	atomic.AddInt32(&callsInProgress, 1)
+}
+
+func callEnd() {
+	atomic.AddInt32(&callsInProgress, -1)
+	atomic.AddInt64(&callBoundaries, 1)
+}
+
+func watchForHang() {
+	var lastCalls, lastBounds int64 = -1, -1
+	since := time.Now()
+	for {
+		time.Sleep(time.Second)
+		c, b := atomic.LoadInt64(&wrap.Calls), atomic.LoadInt64(&callBoundaries)
+		if c != lastCalls || b != lastBounds || atomic.LoadInt32(&callsInProgress) == 0 {
+			lastCalls, lastBounds, since = c, b, time.Now()
+			continue
+		}
+		if time.Since(since) > hangLimit {
+			buf := make([]byte, 1<<16)
+			n := runtime.Stack(buf, true)
+			fmt.Fprintf(os.Stderr, "HANG: a public call has neither returned nor made a store call for %v\n%s\n", hangLimit, clipStacks(string(buf[:n])))
+			os.Exit(3)
+		}
+	}
+}
+
+// clipStacks keeps the goroutines that are inside clover.
+func clipStacks(all string) string {
+	var keep []string
+	for _, g := range strings.Split(all, "\n\n") {
+		if strings.Contains(g, "github.com/ostafen/clover") {
+			if len(g) > 1500 {
+				g = g[:1500]
+			}
+			keep = append(keep, g)
+		}
+	}
+	out := strings.Join(keep, "\n\n")
+	if len(out) > 6000 {
+		out = out[:6000]
+	}
+	return out
+}
 
 // addressSpaceLimit is generous for the workloads of the harness (tens of
 // megabytes live) and far below what the sandbox has.
@@ -153,7 +229,8 @@ func fatalLine(out string) string {
 	for _, l := range strings.Split(out, "\n") {
 		l = strings.TrimSpace(l)
 		switch {
-		case strings.HasPrefix(l, "fatal error:"),
+		case strings.HasPrefix(l, "HANG:"),
+			strings.HasPrefix(l, "fatal error:"),
 			strings.HasPrefix(l, "panic:"),
 			strings.HasPrefix(l, "runtime: goroutine stack exceeds"),
 			strings.HasPrefix(l, "runtime: out of memory"),
@@ -170,6 +247,9 @@ func fatalLine(out string) string {
 
 // deathClass keeps what identifies the kind of death and drops addresses and sizes.
 func deathClass(line string) string {
+	if strings.HasPrefix(line, "HANG:") {
+		return "blocked"
+	}
 	for _, k := range []string{"concurrent map", "stack overflow", "stack exceeds", "out of memory", "cannot allocate", "all goroutines are asleep", "SIGSEGV", "SIGBUS", "fault address", "makeslice", "index out of range", "nil pointer"} {
 		if strings.Contains(line, k) {
 			return k
@@ -260,6 +340,10 @@ func deathViolation(rf *RunFile, at int, death string) *Violation {
 	v := &Violation{Props: []string{"C20"}, Rule: ruleDeath, OpIdx: at,
 		Msg:      "the process executing the operation died: " + death,
 		Features: map[string]string{"death": deathClass(death)}}
+	if deathClass(death) == "blocked" {
+		v.Props, v.Rule = []string{"C04", "C20"}, ruleBlocked
+		v.Msg = "the operation never returns: " + death
+	}
 	if at >= 0 && at < len(rf.Ops) {
 		v.OpK = rf.Ops[at].K
 		for _, p := range opProps[v.OpK] {
